@@ -91,10 +91,13 @@ PROPS['C02'] = m1prop('C02', 'theories/Props/C02.v', ['C02'],
                                             ('C02-written-twice-after-restart', 11, 'gated: Stop overtakes a ready token, 12 tries; after Start the first request is written exactly once (F31)')))
 PROPS['C07'] = m1prop('C07', 'theories/Props/C07.v', ['C07', 'hang', 'panic'],
                       extra=scenario_extra(('C07-senders-vs-disconnect-deadlock', 6, 'real sockets: 4 goroutines keep sending on a charge point while the central system drops its connection 12 times; every send and the final Stop must return (F30)'),
-                                            ('C07-resume-blocks-pump', 9, 'gated: a write fails and the pump sits in the application cancel callback while the connection drops and comes back; Resume must not block the pump, the endpoint keeps working')))
-PROPS['C09'] = m1prop('C09', 'theories/Props/C09.v', ['C09'])
+                                            ('C07-resume-blocks-pump', 9, 'gated: a write fails and the pump sits in the application cancel callback while the connection drops and comes back; Resume must not block the pump, the endpoint keeps working'),
+                                            ('C07-server-burst-deadlock', 13, '60 concurrent server-side sends (the request channel holds 20) with a 15 ms network write: every SendRequest returns and all 60 requests are written (F3)')))
+PROPS['C09'] = m1prop('C09', 'theories/Props/C09.v', ['C09'],
+                      extra=scenario_extra(('C09-stale-reply-accepted-after-reconnect', 7, 'bare ocppj.Server without an application disconnect handler: a session ends with a request outstanding, the same id reconnects; a late reply carrying the old id is ignored and only the genuine reply is delivered')))
 PROPS['C10'] = m1prop('C10', 'theories/Props/C10.v', ['C10'],
-                      extra=scenario_extra(('C10-rewritten-after-reconnect', 10, 'gated: the connection drops while the dispatcher is inside ws.Client.Write (the write succeeds); after the reconnection another request is queued: the outstanding request is not written again')))
+                      extra=scenario_extra(('C10-rewritten-after-reconnect', 10, 'gated: the connection drops while the dispatcher is inside ws.Client.Write (the write succeeds); after the reconnection another request is queued: the outstanding request is not written again'),
+                                            ('C10-written-while-disconnected', 14, 'the application sends a request from inside its disconnect handler (and lingers there): nothing is handed to the network until the reconnection, then the request is written once and not cancelled')))
 PROPS['C11'] = Prop('C11', harness='c11', entries=['c11rt', 'm1c', 'm1c_h', 'm1c_fresh', 'm1s'], props_file='theories/Props/C11.v', quick_n=300, thorough_n=6000,
                     trusted=M1_TRUSTED + ['real-time lane c11rt: wall-clock trace of writes and conclusions, judged by the Coq-proved timing monitor of C08'],
                     assumptions=M1_ASSUME, rule='real-time lane: server endpoints of both versions, a request outstanding when the session ends, the same id reconnects, a new request must get its own full timeout (2 runs per version, thorough 10); ' + M1_RULE,
@@ -221,7 +224,8 @@ PROPS['C13'] = Prop('C13', harness='c13', entries=['c13', 'c13b'], props_file='t
                     assumptions=['handler-atomic granularity: a handshake, a connection end and its cleanup are one step each; the order "new-client callback before the first message / before the disconnected callback of a connection that dies at once" (F21) and writers blocked on a full outQueue during cleanup (F6) are finer than the model',
                                  'only handshakes that pass auth / check / origin / negotiation are events of this model (C14 covers the others)'],
                     rule='real ws server on loopback: seeded random sequences (4-17 events over 3 ids) of connect / duplicate connect / client close frame / abrupt TCP reset (SO_LINGER 0) / StopConnection / server Write / server Stop, compared with the registry model after every event (callbacks, refusals, write results, GetChannel of every id); plus concurrent connect bursts on 2 ids judged by a monitor (one winner per id, callback counts, registry empty afterwards); quick 27 sequences + 6 bursts, thorough 400 + 120',
-                    design_ref='5 C13', monitor_prefixes=['C13'], confirm_slow=True, harness_timeout=3000, spec_entries=['c13'], search_n=400)
+                    design_ref='5 C13', monitor_prefixes=['C13'], confirm_slow=True, harness_timeout=3000, spec_entries=['c13'], search_n=400,
+                    extra=scenario_extra(('C13-second-live-connection-after-stopconnection', 15, 'real sockets: StopConnection on a connection whose write routine is busy (64 MiB to a peer that does not read); until its disconnected callback a second connection with the same id is refused with 1008, afterwards a new one works', ), quick=2, thorough=12))
 MANIFEST_TEXT['C13'] = dict(
     text='Coq theorems on the registry LTS, for every sequence of events: at most one live connection per id; a duplicate connect is refused without callback and leaves the existing connection untouched; every connection is in exactly one lifecycle state (nothing / refused / connected once and registered / connected once then disconnected once, same id, in that order); the reported ids are exactly the live connections; Write succeeds exactly for registered ids. The model is compared with the real server over loopback sockets after every event of seeded sequences, and concurrent bursts are judged by a monitor on the implementation.',
     note='Trusted: Coq kernel, extraction, harness; gorilla/websocket, net/http, TCP loopback exercised, not verified. Partial: pump-level interleavings inside one connection (cleanup vs blocked writers, run() before the new-client handler) are below the model\'s granularity.',
@@ -243,10 +247,10 @@ PROPS['C17'] = Prop('C17', harness='c17', entries=['c17', 'c17k'], props_file='t
                     assumptions=['the random part of the back-off is environment nondeterminism (range 0 in the correspondence runs)',
                                  'keep-alive: the theorems are about the deadline bookkeeping over a virtual clock; timer accuracy, gorilla, the kernel are outside the model (real-time scenarios check detection within wait + 750 ms)',
                                  'a Stop racing the instant the back-off delay elapses (both select arms ready) is not forced by the harness'],
-                    rule='label sequences over {start, abrupt connection loss (TCP reset), dial fails, dial succeeds, stop} on the real ws client against a raw loopback server with parked dials: a corpus (first retry succeeds, four failed retries, stopped-and-restarted client, stop during a dial that fails / succeeds) plus seeded random sequences (quick 10, thorough 150), compared with the model (handler trace, number of dials, final phase); 4 real-time keep-alive scenarios (peer stops answering pings; healthy idle connection; server side: silent client, pinging client) judged by a monitor',
+                    rule='label sequences over {start, connection loss (TCP reset, or close frame 1000 / 1001 sent by the server), dial fails, dial succeeds, stop} on the real ws client against a raw loopback server with parked dials: a corpus (first retry succeeds, four failed retries, stopped-and-restarted client, stop during a dial that fails / succeeds, loss by a close frame 1000 / 1001 from the server) plus seeded random sequences (quick 10, thorough 150), compared with the model (handler trace, number of dials, final phase); 6 real-time keep-alive scenarios (peer stops answering pings; healthy idle connection; server side: silent client, pinging client; server with its own pings: client that never answers, client that answers) judged by a monitor',
                     design_ref='5 C17', monitor_prefixes=['C17'], confirm_slow=True, harness_timeout=3000, spec_entries=['c17'])
 MANIFEST_TEXT['C17'] = dict(
-    text='Coq theorems on the reconnection machine: any number of failed dials keeps the loop going; back-off doubled (plus the random range) for the first repeat attempts then constant; a restarted client has no stale abort signal (repaired F7); once idle only Start connects; Stop during a dial ends the loop when the dial fails -- and the refutation witness of "never reconnects after Stop" when that dial succeeds (open finding F26); keep-alive deadline bookkeeping (silent peer detected by last activity + wait, healthy peer never dropped). The machine is compared with the real client against a raw loopback server with parked dials; keep-alive runs in real time under a monitor.',
+    text='Coq theorems on the reconnection machine: any number of failed dials keeps the loop going; back-off doubled (plus the random range) for the first repeat attempts then constant; a restarted client has no stale abort signal (repaired F7); once idle only Start connects; Stop during a dial ends the loop whether that dial fails or succeeds (a connection established after Stop is dropped: repaired F26), and from a Stop on, until the next Start, no sequence of losses, dials and further Stops makes the client connected; keep-alive deadline bookkeeping (silent peer detected by last activity + wait, healthy peer never dropped). The machine is compared with the real client against a raw loopback server with parked dials; keep-alive runs in real time under a monitor.',
     note='Trusted: Coq kernel, extraction, harness; gorilla/websocket, timers and TCP are exercised, not verified. Partial as stated in DESIGN.md: the runtime half of the property (timers firing, the network noticing a reset) is observed, not proved.',
     technique='Coq proofs over a reconnection state machine and a timed deadline model + differential correspondence with a scripted raw server + real-time keep-alive monitor')
 
